@@ -70,7 +70,9 @@ static const Seed* g_canary = nullptr;
 // Two readers alive at the same time on one thread - one over the full file, one over the prefix - advanced in turns (the natural way to compare a
 // prefix with its file block by block): each must return what it returns when it is the only reader. Decoders are independent instances; whatever
 // they share (a hoisted window, a cached cursor) shows here and nowhere in one-reader-at-a-time use.
+static uint64_t g_lockstep_runs = 0;
 static void check_lockstep(const Seed& s, size_t n, std::vector<V>& out) {
+    g_lockstep_runs++;
     std::string pre = s.bytes.substr(0, n); size_t expect_blocks = 0; for (auto& b : s.rf.blocks) if (b.end <= n) expect_blocks++;
     std::string where = s.name + " prefix " + std::to_string(n) + "/" + std::to_string(s.bytes.size()) + " read in turns with the full file";
     std::istringstream isf(s.bytes), isp(pre), isc(g_canary ? g_canary->bytes : std::string());
@@ -391,7 +393,7 @@ int main(int argc, char** argv) {
                 for (size_t i = t.lo; i < t.hi; i++) for (int sk = 0; sk < 2; sk++) {
                     if (sk == 1 && !(pts[i] % W <= 1 || W - pts[i] % W <= 1 || pts[i] == seeds[t.seed].bytes.size() || i % 16 == 0)) continue;
                     std::string rep = "kind=prefix;seed=" + seeds[t.seed].name + ";n=" + std::to_string(pts[i]) + ";stream=" + std::to_string(sk);
-                    set_note(rep); out.clear(); check_prefix(seeds[t.seed], pts[i], sk, out); R.count("traces"); if (pts[i] > 0 && pts[i] < seeds[t.seed].bytes.size()) R.count("nontrivial");
+                    set_note(rep); out.clear(); { uint64_t l0 = g_lockstep_runs; check_prefix(seeds[t.seed], pts[i], sk, out); if (g_lockstep_runs > l0) R.count("lockstep_runs", g_lockstep_runs - l0); } R.count("traces"); if (pts[i] > 0 && pts[i] < seeds[t.seed].bytes.size()) R.count("nontrivial");
                     for (auto& v : out) R.violation("prefix|" + v.key, v.what, rep);
                     R.outcome(out.empty() ? "prefix-ok" : "prefix-viol:" + out[0].key);
                 }
